@@ -102,8 +102,24 @@ def rule_effect(fx, rep, search, cone):
                     if not (c[1].split("::")[-1] in ("is_some_and", "is_none_or", "map_or", "map", "and_then", "filter", "is_some_and") and "Option" in c[1]):
                         return False
                     f = pC05._self_field(c[2][0])
-                    if not f or not pC05.none_without_limit(fx, f):
+                    if f and pC05.none_without_limit(fx, f):
+                        continue
+                    # ... or on the Option returned by a helper of the strategy that answers None for every control without a limit
+                    r0 = deep_strip(c[2][0])
+                    hb = fx.body(r0[1]) if isinstance(r0, tuple) and r0 and r0[0] == "call" and isinstance(r0[1], str) and "TimeStrategy::" in r0[1] else None
+                    if hb is None:
                         return False
+                    for hconds, hret, _hb in decision_paths(hb, 32):
+                        hr = deep_strip(hret) if hret is not None else None
+                        if hr is None or (isinstance(hr, tuple) and hr[0] == "agg" and str(hr[1]).endswith("Option::None")):
+                            continue
+                        hsel = None
+                        for hc, hv in hconds:
+                            hd = deep_strip(hc)
+                            if isinstance(hd, tuple) and hd and hd[0] == "discr" and pC05._self_field(hd[1]) == "time_control":
+                                hsel = pC05._selected(variants, hv)
+                        if hsel is None or None in hsel or (hsel & free):
+                            return False
             return True
 
         for conds, ret, _bb in paths:
@@ -324,6 +340,9 @@ def rule_reset(fx, rep, search, cone):
         if v["key"].startswith("C19-CLEAR/reset"):
             ok = False
             rep.violation("C12-RESET", v["key"].replace("C19-CLEAR/reset", "C12-RESET/tt"), v["msg"] + ": entries of the previous game survive ucinewgame", v["site"])
+        elif "size-field" in v["key"]:
+            ok = False
+            rep.violation("C12-RESET", v["key"].replace("C19-CLEAR/", "C12-RESET/tt/"), v["msg"] + ": the engine then searches with a table of another size than a fresh engine with the same options, and ucinewgame cannot repair it", v["site"])
     n += 3
     rep.obligation(ok, 3)
     # "a fresh engine with the same options": the engine's own state is built with the configured hash size, not with a
@@ -478,6 +497,8 @@ TB = "src/engine/search/tables.rs"
 TC = "src/engine/search/time_control.rs"
 SM = "src/engine/search/mod.rs"
 MUTANTS = [
+    {"name": "resize drops the table for Hash 0 without recording the size (seed C12-11a)", "expect": "C12-RESET/tt/resize/size-field",
+     "edits": __import__("shared_mutants").edits_from_patch("seeded/C12-11a/patch.diff")},
     {"name": "engine state built with a zero-slot table, sized on isready (seed C12-7a)", "expect": "C12-RESET/initial-size",
      "edits": [("src/engine/uci/mod.rs", "        persistent_state: Arc::new(Mutex::new(PersistentState::new(options.hash_size))),", "        persistent_state: Arc::new(Mutex::new(PersistentState::new(0))),"),
                ("src/engine/uci/mod.rs", "            UciCommand::IsReady => send_response(&UciResponse::ReadyOk),", "            UciCommand::IsReady => {\n                if let Ok(mut state_handle) = self.persistent_state.try_lock() {\n                    state_handle.tt.resize(self.options.hash_size);\n                }\n                send_response(&UciResponse::ReadyOk);\n            }")]},
